@@ -663,7 +663,9 @@ def gen_cases(run):
     pairs = ([(a, b) for a in singles for b in singles] + rnd.sample(allpairs, 60)) if thorough else [
         (["md5"], ["md5"]), (["md5"], ["c4"]), (["c4"], ["md5", "c4"]), (["md5", "c4"], ["md5"]), (["xxh64", "md5"], ["c4"]), (["xxh64"], ["xxh64", "md5"]),
     ]
+    pairs = list(dict.fromkeys((tuple(a), tuple(b)) for a, b in pairs))
     for a, b in pairs:
+        a, b = list(a), list(b)
         for lname, mv in layouts.items():
             for nested in ([], ["A"]) if (thorough or (a != b and lname == "stay")) else ([],):
                 if nested and lname == "newdir":
